@@ -25,6 +25,7 @@ import (
 	"github.com/libp2p/go-libp2p/core/peer"
 	"github.com/libp2p/go-libp2p/core/peerstore"
 	"github.com/libp2p/go-libp2p/p2p/net/swarm"
+	"github.com/libp2p/go-libp2p/x/verifhook"
 	ma "github.com/multiformats/go-multiaddr"
 
 	"verif/harness/rig/run"
@@ -54,14 +55,15 @@ type caller struct {
 }
 
 type scenario struct {
-	ID        string     `json:"id"`
-	Staggered bool       `json:"staggered"` // starts, cancellations and completions never share an instant
-	Addrs     []addrSpec `json:"addrs"`
-	Callers   []caller   `json:"callers"`
-	CloseAtU  []int      `json:"close_all_conns_at_us"`
-	Round2U   int        `json:"second_round_after_us"` // 0: single round
-	PerPeer   int        `json:"per_peer_limit"`
-	FDLimit   int        `json:"fd_limit"`
+	ID         string     `json:"id"`
+	Staggered  bool       `json:"staggered"` // starts, cancellations and completions never share an instant
+	Addrs      []addrSpec `json:"addrs"`
+	Callers    []caller   `json:"callers"`
+	CloseAtU   []int      `json:"close_all_conns_at_us"`
+	Round2U    int        `json:"second_round_after_us"` // 0: single round
+	HookDelayU int        `json:"afterdial_hook_delay_us"`
+	PerPeer    int        `json:"per_peer_limit"`
+	FDLimit    int        `json:"fd_limit"`
 }
 
 type ev struct {
@@ -146,6 +148,45 @@ func universe(rng interface{ IntN(int) int }, relay peer.ID, staggered bool) []a
 	return out
 }
 
+// genHandover: a worker hand-over at one instant - the last caller of a worker gives up exactly when a
+// new caller arrives, with dials waiting on the per-peer / fd limits on both sides of the hand-over.
+func genHandover(r *run.R, i int, perPeer, fd int) *scenario {
+	rng := r.Rand(51, uint64(i))
+	pool := swarmrig.Pool(64)
+	sc := &scenario{ID: fmt.Sprintf("handover/pp%d-fd%d/%d", perPeer, fd, i), PerPeer: perPeer, FDLimit: fd}
+	all := universe(rng, pool.ID[relayPeerIdx], false)
+	for _, a := range all {
+		if a.Class != "must" {
+			continue
+		}
+		a.AddAt, a.Late, a.Prog = 0, false, rng.IntN(4) == 0
+		a.Script = []string{"fail", "fail", "hang", "ok"}[rng.IntN(4)]
+		a.DelayU = []int{0, 1000, 249000, 250000, 500000, 2000000}[rng.IntN(6)]
+		sc.Addrs = append(sc.Addrs, a)
+	}
+	t := []int{0, 1000, 250000, 251000, 500000}[rng.IntN(5)]
+	first := caller{AtU: 0, CancelU: -1, Force: rng.IntN(3) == 0}
+	if rng.IntN(2) == 0 {
+		first.TimeoutU = t + 1
+	} else {
+		first.CancelU = t
+	}
+	if first.TimeoutU == 1 {
+		first.TimeoutU = 1000
+		t = 999
+	}
+	sc.Callers = append(sc.Callers, first)
+	n := 1 + rng.IntN(3)
+	for k := 0; k < n; k++ {
+		at := t
+		if first.TimeoutU > 0 {
+			at = first.TimeoutU
+		}
+		sc.Callers = append(sc.Callers, caller{AtU: at, CancelU: -1, Force: rng.IntN(3) == 0, Sim: rng.IntN(4) == 0})
+	}
+	return sc
+}
+
 func gen(r *run.R, i int, perPeer, fd int) *scenario {
 	rng := r.Rand(5, uint64(i))
 	pool := swarmrig.Pool(64)
@@ -177,10 +218,27 @@ func gen(r *run.R, i int, perPeer, fd int) *scenario {
 	if rng.IntN(4) == 0 {
 		sc.Round2U = []int{100000500, 1000500, 30000500}[rng.IntN(3)]
 	}
+	if !sc.Staggered && rng.IntN(4) == 0 {
+		sc.HookDelayU = []int{1, 1000, 250000}[rng.IntN(3)]
+	}
 	return sc
 }
 
 var slots = swarmrig.NewSlots(40)
+
+// hook point between a caller's dial returning and the ref-count decrement in dialSync.Dial: a virtual
+// delay there keeps the worker alive a little longer after its last caller was answered
+var afterDialDelay sync.Map // remote peer id -> time.Duration
+
+func init() {
+	verifhook.Set("swarm.dialSync.afterDial", func(_ string, arg any) {
+		if p, ok := arg.(peer.ID); ok {
+			if d, ok := afterDialDelay.Load(p); ok && d.(time.Duration) > 0 {
+				time.Sleep(d.(time.Duration))
+			}
+		}
+	})
+}
 
 func runScenario(t *testing.T, sc *scenario) (res result) {
 	slot := slots.Get()
@@ -189,6 +247,10 @@ func runScenario(t *testing.T, sc *scenario) (res result) {
 		pool := swarmrig.Pool(64)
 		remote := pool.ID[slot]
 		wrong := pool.ID[59]
+		if sc.HookDelayU > 0 {
+			afterDialDelay.Store(remote, time.Duration(sc.HookDelayU)*time.Microsecond)
+			defer afterDialDelay.Delete(remote)
+		}
 		start := time.Now()
 		us := func() int64 { return time.Since(start).Microseconds() }
 		var mu sync.Mutex
@@ -406,7 +468,7 @@ func check(sc *scenario, res *result) (out []finding, st map[string]int) {
 			if c.TimeoutU > 0 {
 				lim = int64(c.TimeoutU)
 			}
-			if cr.EndU-cr.StartU > lim {
+			if cr.EndU-cr.StartU > lim+int64(sc.HookDelayU) { // the hook's own delay sits inside the caller's return path
 				out = append(out, finding{"cancelled-caller-not-released-promptly", fmt.Sprintf("caller %d returned %d us after its call, its context ended after %d us", idx, cr.EndU-cr.StartU, lim)})
 			} else if cr.CtxErr {
 				st["cancelled_callers_released_at_once"]++
@@ -414,7 +476,28 @@ func check(sc *scenario, res *result) (out []finding, st map[string]int) {
 		}
 		// "with an error once every candidate address has failed or been refused": an error that is not
 		// the caller's own context while a dialable address was never handed to a transport
-		if cr.Err != "" && !cr.CtxErr && rd == 0 && sc.Round2U == 0 && !strings.Contains(cr.Err, "swarm closed") {
+		ownAlive := true // the caller's own context had not ended when it returned
+		if c.TimeoutU > 0 && int64(c.TimeoutU) <= cr.EndU-cr.StartU {
+			ownAlive = false
+		}
+		if c.CancelU >= 0 && c.TimeoutU == 0 && int64(c.CancelU) <= cr.EndU-cr.StartU {
+			ownAlive = false
+		}
+		// with the default caps every address can be in flight at once: also an error caused by the
+		// 60 s dial-peer timeout must not leave a dialable address unattempted ("every address that is
+		// neither filtered out nor in back-off is attempted unless ... every caller has given up first")
+		// with small caps the dials are serialised: the rule still applies when even the sum of all dial
+		// durations (a hanging dial lasts until its 15 s dial timeout) fits well inside the 60 s
+		var serial int64
+		for _, sp := range sc.Addrs {
+			d := int64(sp.DelayU)
+			if sp.Script == "hang" || d > 15000000 {
+				d = 15000000
+			}
+			serial += d + 1000000
+		}
+		timedOutWaiting := cr.CtxErr && ownAlive && ((sc.PerPeer >= 8 && sc.FDLimit >= 8) || serial < 50000000)
+		if cr.Err != "" && (!cr.CtxErr || timedOutWaiting) && rd == 0 && sc.Round2U == 0 && !strings.Contains(cr.Err, "swarm closed") {
 			for _, sp := range sc.Addrs {
 				if sp.Class != "must" || (c.Force && sp.Relay) || int64(sp.AddAt) > cr.StartU-2 {
 					continue
@@ -429,6 +512,9 @@ func check(sc *scenario, res *result) (out []finding, st map[string]int) {
 					out = append(out, finding{"error-although-address-never-attempted", fmt.Sprintf("caller %d failed with %q although %s (%s) was never handed to a transport", idx, cr.Err, sp.Name, sp.Addr)})
 				} else {
 					st["error_returns_with_all_attempted"]++
+					if timedOutWaiting {
+						st["dial_timeout_returns_with_all_attempted"]++
+					}
 				}
 			}
 		}
@@ -470,6 +556,60 @@ func check(sc *scenario, res *result) (out []finding, st map[string]int) {
 			}
 		}
 		st["staggered_scenarios"]++
+		// "success answers every request interested in the address": when a dial of an address succeeds,
+		// every caller that was already waiting, knew that address when it called, accepts it and whose own
+		// context has not ended, returns at that very instant (exact in staggered scenarios)
+		type waiting struct {
+			idx     int
+			callAtU int64
+		}
+		open := map[int]waiting{}
+		retAt := map[int]int64{}
+		for _, e := range res.Events {
+			if e.Kind == "ret" {
+				retAt[e.Caller] = e.AtU
+			}
+		}
+		for _, e := range res.Events {
+			switch e.Kind {
+			case "call":
+				open[e.Caller] = waiting{e.Caller, e.AtU}
+			case "ret":
+				delete(open, e.Caller)
+			case "dial.end":
+				sp := norm[e.Addr]
+				if !strings.HasPrefix(e.Info, "ok") || sp == nil || sp.Script != "ok" || sp.Class != "must" {
+					continue // an address a caller may have filtered out (same 2-tuple) is not one it waits for
+				}
+				for _, w := range open {
+					c := sc.Callers[w.idx%nCallers]
+					rd := int64(w.idx/nCallers) * int64(sc.Round2U)
+					if w.callAtU >= e.AtU || (c.Force && sp.Relay) || int64(sp.AddAt)+rd >= w.callAtU {
+						continue
+					}
+					own := int64(1) << 62
+					if c.TimeoutU > 0 {
+						own = w.callAtU + int64(c.TimeoutU)
+					} else if c.CancelU >= 0 {
+						own = w.callAtU + int64(c.CancelU)
+					}
+					if own <= e.AtU {
+						continue
+					}
+					closedSame := false
+					for _, x := range res.Events {
+						if x.Kind == "close" && x.AtU == e.AtU {
+							closedSame = true
+						}
+					}
+					if r, ok := retAt[w.idx]; ok && r > e.AtU && !closedSame {
+						out = append(out, finding{"caller-kept-waiting-after-connection-obtained", fmt.Sprintf("caller %d was waiting when the dial of %s succeeded at %d us and returned only at %d us", w.idx, sp.Name, e.AtU, r)})
+					} else {
+						st["callers_released_by_shared_success"]++
+					}
+				}
+			}
+		}
 	}
 	// caps
 	if res.MaxPeer > sc.PerPeer {
@@ -558,6 +698,9 @@ func TestC05(t *testing.T) {
 		os.Setenv("LIBP2P_SWARM_FD_LIMIT", fmt.Sprint(cf.fd))
 		run.Parallel(n, 0, func(i int) {
 			sc := gen(r, ci*1000000+i, cf.perPeer, cf.fd)
+			if i%4 == 3 {
+				sc = genHandover(r, ci*1000000+i, cf.perPeer, cf.fd)
+			}
 			if !r.Want(sc.ID) || r.TooMany() {
 				return
 			}
@@ -602,6 +745,7 @@ func TestC05(t *testing.T) {
 	r.Require("fd_cap_reached", 50)
 	r.Require("scenarios_with_overlapping_callers", 500)
 	r.Require("transport_dials", 2000)
+	r.Require("callers_released_by_shared_success", 100)
 }
 
 func overlap(res *result) bool {
